@@ -17,7 +17,9 @@ ALSO = ("Also not acceptable any more (seen many times): pointers into cached da
         "byte order marks, panicking callbacks, nesting-depth limits, the most negative integer, empty pieces or bare keys or ';' in URL queries, quotes or brackets or leading blanks in messages, "
         "embedded fields, tag keys with underscores, a variable captured by a closure in a loop, reused reflect iteration holders, trimming blanks off rule text, arrays passed by value, unhashable interface values, "
         "invalid percent escapes, invalid UTF-8, '+' vs %20, element index rendering, **T fields, stat errors other than not-exist, value receivers copying a lock, double sync.Pool.Put, commas inside slice elements, the order of SetRule calls, "
-        "substring tests on rule text, white space inside injected values, empty tag literals, local types inside functions, particular integer constants (100, 10, 32). "
+        "substring tests on rule text, white space inside injected values, empty tag literals, local types inside functions, particular integer constants (100, 10, 32, 64, 16), "
+        "odd map keys, multi-byte separators, '%' or '@' in tag values, unbalanced quotes in literals, duplicate neighbouring fields, long tag names, tolerance in float comparison, white-space-only values, "
+        "group keys, a second '?' in a URL, trailing data after JSON, messages containing '=', unexported fields named by a rule map, nil interfaces, control characters, multi-line comments, exit status / && short-circuits, empty slices. "
         "First read ALL non-test source files and the README; make a list of every function, branch and documented behaviour relevant to this property "
         "that NONE of the items above touches, and pick from that list. Prefer faults in code paths that look boring (helpers in common.go / init.go / "
         "abstract.go / rule.go / handletag.go / witre.go / dump.go, error-path bookkeeping, separators, defaults, path naming, label handling, ordering of "
